@@ -155,10 +155,11 @@ def _in_fragment(sc):
 
 def stratified(cases, rng, per=1):
     """Quick-tier sample of the enumerated scenarios: `per` from every (nesting, user-class set,
-    global repository, failure step) stratum instead of a plain random subset."""
+    global repository, failure step, failing file) stratum instead of a plain random subset."""
     groups = {}
     for s in cases:
-        groups.setdefault((s["id"].split("/")[0], tuple(s["user"]), s["grepo"], s["fault"]["step"]), []).append(s)
+        groups.setdefault((s["id"].split("/")[0], tuple(s["user"]), s["grepo"], s["fault"]["step"],
+                           s["fault"]["f"]), []).append(s)
     out = []
     for key in sorted(groups):
         out += rng.sample(groups[key], min(per, len(groups[key])))
